@@ -34,9 +34,9 @@ def labels_for(n, style):
     return [10 - i for i in range(n)]                   # descending ints (not positions)
 
 
-def build_object(kind, elems, container, style):
+def build_object(kind, elems, container, style, aff=None):
     import spatialpandas as sp
-    arr = geom.make_array(kind, elems)
+    arr = geom.make_array(kind, elems) if aff is None else geom.make_array(kind, elems, aff, "float64")
     if container == "array":
         return arr
     lab = labels_for(len(elems), style)
@@ -208,7 +208,13 @@ def run(tier: str, seed: int) -> int:
         n = rng.choice([0, 1, 2, 7, 30, 120] if quick else [0, 1, 5, 30, 200])
         elems = [c01.rand_element(rng, kind, lim) for _ in range(n)]
         container = ["array", "series", "frame"][a % 3]
-        obj = build_object(kind, elems, container, a % 4)
+        # exact images whose float64 coordinates are NOT representable in float32 (a translation beyond 2^24 for every kind; a
+        # decimal scale for the point kinds, where only comparisons matter): the selection must not depend on the index's arithmetic
+        aff = None
+        if a % 3 == 1 and not any(geom.has_special(e) for e in elems):
+            aff = geom.Affine(0.1, 0.3, 0.1, 0.7, name="decimal") if kind in ("point", "multipoint") and a % 2 else \
+                geom.Affine(1.0, 2.0 ** 24 + 1, 1.0, -(2.0 ** 24 + 3), name="beyond-float32")
+        obj = build_object(kind, elems, container, a % 4, aff)
         if rng.random() < 0.7:
             obj.build_sindex(p=rng.choice([1, 4, 10]), page_size=rng.choice([1, 2, 3, 7, 16, 512]))
         lab0 = labels_for(n, a % 4) or list(range(n))
@@ -229,13 +235,18 @@ def run(tier: str, seed: int) -> int:
                     if a0 == b0:
                         b0 += 1
                     key.append([a0, b0, 0])
-            res = obj.cx[axis_arg(key[0]), axis_arg(key[1])]
+            if aff is None:
+                res = obj.cx[axis_arg(key[0]), axis_arg(key[1])]
+            else:
+                kx = [key[0][0] if key[0][0] == OMIT else aff.x(key[0][0]), key[0][1] if key[0][1] == OMIT else aff.x(key[0][1]), key[0][2]]
+                ky = [key[1][0] if key[1][0] == OMIT else aff.y(key[1][0]), key[1][1] if key[1][1] == OMIT else aff.y(key[1][1]), key[1][2]]
+                res = obj.cx[axis_arg(kx), axis_arg(ky)]
             chk.count()
             # positions of the returned rows: recover through the extra column / by walking the elements in order
             if container == "frame":
                 pos = [v // 10 + 1 for v in res["v"]]
             else:
-                got = [geom.canon(kind, e) for e in geom.from_array(kind, res if container == "array" else res.array)]
+                got = [geom.canon(kind, e) for e in geom.from_array(kind, res if container == "array" else res.array, aff or geom.IDENT)]
                 src = [geom.canon(kind, e) for e in elems]
                 pos, j = [], 0
                 for g in got:                                   # greedy order-preserving match
